@@ -58,6 +58,56 @@ def run_real(chunks, cls, limit=200000):
     return frames
 
 
+def run_real_routed(chunks, cls, has_dev, limit=200000):
+    """(control queue, stream queue) contents after the real CommHandler._recv_thread with Parser(frame=cls) processed the
+    scripted reads; has_dev False: no device description is known yet (ACK frames are dropped)"""
+    from nxslib.comm import CommHandler
+    from nxslib.intf.iintf import ICommInterface
+    from nxslib.proto.parse import Parser
+    script = list(chunks)
+
+    class Link(ICommInterface):
+        def start(self): pass
+        def stop(self): pass
+        def drop_all(self): pass
+        def _read(self):
+            return script.pop(0) if script else b""
+        def _write(self, data): pass
+
+    comm = CommHandler(Link(), Parser(frame=cls))
+    comm._dev = object() if has_dev else None
+    try:
+        for _ in range(limit):
+            had = bool(script)
+            before = comm._prev_read
+            n = comm._q.qsize() + comm._q_stream.qsize()
+            comm._recv_thread()
+            if not had and not script and comm._prev_read == before and comm._q.qsize() + comm._q_stream.qsize() == n:
+                break
+        else:
+            raise RuntimeError("receive body did not become quiescent")
+        out = []
+        for q in (comm._q, comm._q_stream):
+            fr = []
+            while not q.empty():
+                f = q.get_nowait()
+                fr.append((int(f.fid), bytes(f.data)))
+            out.append(fr)
+    finally:
+        comm._dev = None
+    return out
+
+
+def routed_str(a, b):
+    return fstr(a) + " / " + fstr(b)
+
+
+def route_want(frames, has_dev):
+    """the receive thread's routing rule, from the protocol description: STREAM frames (id 1) to the stream queue, ACK
+    frames (id 4) dropped while no device description is known, everything else to the control queue, in arrival order"""
+    return ([f for f in frames if f[0] != 1 and not (not has_dev and f[0] == 4)], [f for f in frames if f[0] == 1])
+
+
 class Recorder:
     """the real ParseRecv(cb, frame=cls) with recording callbacks"""
 
@@ -269,6 +319,23 @@ def gen_stream(rng, rc, maxparts=6):
     return b"".join(parts)
 
 
+def gen_routed_stream(rng, rc, nparts=5):
+    """valid frames rich in STREAM (1) and ACK (4) ids between the other response ids, some noise / damage between"""
+    parts = []
+    for _ in range(rng.randrange(2, nparts + 1)):
+        r = rng.random()
+        if r < 0.75:
+            fid = rng.choice([1, 1, 1, 4, 4, 2, 3, 0, 5, 6, 7, 8])
+            parts.append(rc.create(fid, g.rbytes(rng, rng.choice([0, 1, 2, 4, 4, 7]))))
+        elif r < 0.85:
+            parts.append(noise(rng, rc, rng.randrange(1, 5)))
+        else:
+            f = bytearray(rc.create(rng.choice([1, 4]), g.rbytes(rng, 4)))
+            f[rng.randrange(len(f))] ^= 1 << rng.randrange(8)
+            parts.append(bytes(f))
+    return b"".join(parts)
+
+
 def draw_codecs(rng, n):
     """n members, stratified over header length 3..8 and the ten footer kinds, plus fixed corner members"""
     fixed = ["sof=55;hdr=S,L2le,I;foot=sum2be",          # the built-in layout with another checksum
@@ -291,7 +358,10 @@ def draw_codecs(rng, n):
     return [P + (";impl=" + IMPLS[i % len(IMPLS)] if IMPLS[i % len(IMPLS)] else "") for i, P in enumerate(out)]
 
 
-IMPLS = ["", "s", "e", "sE", "", "se", "E", "s"]
+# realisations (famcodec.frame_cls): base class (s), error codes (e / E) x the concrete Python types of the results
+# (i: frame id a plain int; n: frame id a member of the codec's own IntEnum; a: payload a bytearray; m: memoryview
+# inside; b: frame_create returns a bytearray).  Sixteen combinations; every letter occurs with and without `s`.
+IMPLS = ["", "si", "e", "sEn", "ib", "se", "Ea", "s", "n", "sab", "eim", "sE", "ab", "senm", "Eib", "sia"]
 
 
 def builder_args(rng):
@@ -379,12 +449,16 @@ def builder_payload(t):
 
 
 SEARCH_CODECS = ["sof=a5;hdr=S,F,F,L2be,F,F,I;foot=crc32be", "sof=7e;hdr=S,L1,I;foot=xor;impl=s",
-                 "sof=55;hdr=S,L2le,I;foot=sum4le;impl=se", "sof=33;hdr=S,I,L2le;foot=sum2be;impl=E"]
+                 "sof=55;hdr=S,L2le,I;foot=sum4le;impl=se", "sof=33;hdr=S,I,L2le;foot=sum2be;impl=E",
+                 "sof=a5;hdr=S,L2le,I;foot=sum2be;impl=ib", "sof=3c;hdr=S,I,L1;foot=sum1;impl=sna",
+                 "sof=55;hdr=S,L2le,I;foot=crc32le;impl=Eim"]
 
 
 # sessions run on every check: a member derived from ICommFrame and one derived from SerialFrame, each against the
 # reference device and against the ParseRecv-based device
-_FIX = ["sof=a5;hdr=S,I,L2be,F,F;foot=xor", "sof=a5;hdr=S,L2le,I;foot=sum2be;impl=s"]
+_FIX = ["sof=a5;hdr=S,I,L2be,F,F;foot=xor", "sof=a5;hdr=S,L2le,I;foot=sum2be;impl=s",
+        "sof=a5;hdr=S,L2le,I;foot=sum2be;impl=ib",        # frame id a plain int, frames handed out as bytearray
+        "sof=3c;hdr=S,I,L1;foot=sum1;impl=na"]            # frame id of the codec's own IntEnum, payload a bytearray
 FIXED_SESSIONS = [f"session {P} 3 010 0,0,0 0 e0;v3:1;W:a:a;d0,1;W:a:a {dev}" for P in _FIX for dev in ("ref", "pr")]
 FIXED_STREAMS = [f"stream {P} 3 10:2:0:0,4:1:1:1,18:4:0:0 0,2 3 3 {dev}" for P in _FIX for dev in ("ref", "pr")]
 
@@ -394,9 +468,11 @@ class C20(Prop):
     lean_module = "NxsModel.Props.C20"
     rule = ("24 (quick) / 200 (thorough) codecs drawn from VERIF_SEED, stratified over header length 3..8 and the ten "
             "footer kinds (+ fixed corner members: start byte 0x00, 3- and 8-byte headers, 24- and 32-bit length fields), "
-            "each realised as a Python class in one of eight ways (derived from ICommFrame, or from ANOTHER CONCRETE codec "
+            "each realised as a Python class in one of sixteen ways (derived from ICommFrame, or from ANOTHER CONCRETE codec "
             "class — the built-in SerialFrame, then each other, parents instantiated first; rejections reported as HDR / "
-            "FOOT, or partly / always as the generic EParseError.ERR); (0) EVERY frame_create site of the library — the six "
+            "FOOT, or partly / always as the generic EParseError.ERR; the frame id reported as an EParseId member, as the "
+            "plain int read off the wire or as a member of the codec's own IntEnum; payloads as bytes or bytearray, with "
+            "or without a memoryview inside; frame_create returning bytes or bytearray); (0) EVERY frame_create site of the library — the six "
             "Parser builders incl. enable / div in tuple, ALL and BULK form, the four ParseRecv encoders incl. chinfo and "
             "stream — with every drawn codec AND the built-in one in ONE process, the same argument list passing through "
             "all codecs in alternating order, vs the codec-generic builders of Generic.lean; per codec: (a) the ICommFrame "
@@ -405,7 +481,9 @@ class C20(Prop):
             "rich in the codec's start byte, cut-off / damaged frames, bogus headers x chunkings (all compositions of "
             "short streams, every single split, byte-wise, random, empty reads), and frames of 64 / 65 / 255 / 256 / 257 / "
             "1024 / 1025 (every codec) and 32767 / 32768 / 65535 (every fourth) and 65536+ (wide length fields) bytes, "
-            "through the real CommHandler._recv_thread with Parser(frame=cls) vs Reasm.run (codec P); (c) requests, "
+            "through the real CommHandler._recv_thread with Parser(frame=cls) vs Reasm.run (codec P), and streams rich "
+            "in STREAM / ACK frames (every id 0..8 back to back, whole and byte-wise; random chunkings; device known / not "
+            "yet known) with the ROUTING to the control / stream queue vs Route.queues (Reasm.run (codec P)); (c) requests, "
             "leading noise, zero padding, near-miss footers, declared-length / id / start-byte sweeps, truncations, noise "
             "and the same frame sizes through the real ParseRecv(cb, frame=cls) vs recvHandleWith (codec P); (d) whole "
             "client sessions (connect, random configuration history, writes, disconnect) of the real CommHandler under "
@@ -419,7 +497,16 @@ class C20(Prop):
             "built-in-codec run (description, samples, acks, requests); "
             "distinct = distinct line; non-trivial = a line whose codec differs from the built-in one in header length, "
             "footer length or start byte and whose input contains the codec's start byte")
-    assumptions = ["the ICommFrame subclasses of harness/famcodec.py are checked against the Lean family on every run "
+    assumptions = ["'honours the frame interface', as to Python types: the VALUES a codec returns are those of the model "
+                   "(LawfulCodec); the concrete types are varied where nxslib compares by value — frame id as EParseId member / "
+                   "plain int / member of another IntEnum, payload and created frame as bytes / bytearray; they are NOT varied "
+                   "where nxslib itself compares by identity: foot_validate returns a real bool (annotation `-> bool`; "
+                   "recv_handle and SerialFrame.frame_decode test `foot_validate(...) is False`, so with a codec returning "
+                   "int(ok) the device side dispatches a corrupted request that the same codec's frame_decode rejects on the "
+                   "client side — existing behaviour of /repo, reproduced by review demo demo_footint.py, classed as outside "
+                   "the quantifier: such a codec does not honour the interface) and err is a member of EParseError (`hdr.err is "
+                   "not EParseError.NOERR`, rule R5 of the static scan); hdr_find / flen / hdr_len / foot_len are plain ints",
+                   "the ICommFrame subclasses of harness/famcodec.py are checked against the Lean family on every run "
                    "(create/decode/hdr/foot/find), not verified; a codec may report a rejection with any non-NOERR code: for the "
                    "members realised with EParseError.ERR the error KIND of decode / hdr is not compared (success / failure is)",
                    "virtual-time runtime (harness/vsim.py) and reference device (harness/refdev.py) as in C07",
@@ -561,6 +648,17 @@ class C20(Prop):
                     lead = b"\x01" * len(lead)
                 for k in range(0, rc.hdr_len + 2):
                     yield pre + f"reasm run {hexs(lead + f1[:k])},-,{hexs(f1[k:] + f2)}", "residue"
+            # (b') the receive thread's ROUTING of the reassembled frames (stream queue / control queue / ACK dropped while
+            # no device is known): decided by Parser.frame_is_stream / frame_is_ack on the frame object the codec returned,
+            # whatever concrete type that codec uses for the frame id
+            every = b"".join(rc.create(fid, bytes([fid]) * (fid % 3)) for fid in (1, 4, 2, 1, 3, 4, 0, 5, 6, 7, 8, 1))
+            for hd in (0, 1):
+                yield pre + f"reasm route {hd} {hexs(every)}", "route-every-id"
+                yield pre + f"reasm route {hd} " + ",".join(hexs(bytes([b])) for b in every), "route-every-id"
+            for _ in range(16 if T else 10):
+                s = gen_routed_stream(rng, rc)
+                yield (pre + f"reasm route {rng.randrange(2)} "
+                       + ",".join(hexs(c) for c in (g.random_chunking(rng, s) or [b""]))), "route"
             # (c) dispatch through the real ParseRecv
             for _ in range(12):
                 yield pre + f"recv handle {hexs(request_frame(rng, rc))}", "request"
@@ -644,6 +742,12 @@ class C20(Prop):
         P, op = t[1], t[2]
         cls = self.cls(P)
         canon = P != "serial" and any(c in fc.split_impl(P)[1] for c in "eE")     # error KINDS are the codec's choice
+        if op == "reasm" and t[3] == "route":
+            chunks = [unhex(c) for c in t[5].split(",")]
+            try:
+                return routed_str(*run_real_routed(chunks, cls, t[4] != "0"))
+            except fc.Spin as e:
+                return "spin " + str(e)
         if op == "reasm":
             chunks = [unhex(c) for c in t[4].split(",")]
             try:
@@ -707,6 +811,25 @@ class C20(Prop):
         P, op = t[1], t[2]
         rc = self.rc(P)
         cls = self.cls(P)
+        if op == "reasm" and t[3] == "route":
+            chunks = [unhex(c) for c in t[5].split(",")]
+            has_dev = t[4] != "0"
+            want = routed_str(*route_want(fc.ref_scan(rc, b"".join(chunks)), has_dev))
+            try:
+                got = routed_str(*run_real_routed(chunks, cls, has_dev))
+            except fc.Spin as e:
+                got = "spin: the receive thread loops without reading (" + str(e) + ")"
+            except Exception as e:
+                got = "raised " + type(e).__name__ + ": " + str(e)[:80]
+            if got != want:
+                return {"key": "routing-custom-codec",
+                        "what": "with Parser(frame=<custom codec>) CommHandler._recv_thread does not put the received frames "
+                                "where it puts them with the built-in codec: STREAM frames (id 1) in the stream queue, ACK "
+                                "frames (id 4) dropped while no device is known, every other frame in the control queue, "
+                                "in arrival order  (<control queue> / <stream queue>)",
+                        "codec": P, "realisation": "built-in SerialFrame" if P == "serial" else fc.realisation(P),
+                        "device_known": has_dev, "expected": want, "observed": got, "stream": hexs(b"".join(chunks))}
+            return None
         if op == "reasm":
             chunks = [unhex(c) for c in t[4].split(",")]
             want = fc.ref_scan(rc, b"".join(chunks))
@@ -720,7 +843,8 @@ class C20(Prop):
                 return {"key": "reassembly-custom-codec",
                         "what": "with Parser(frame=<custom codec>) the frames extracted by CommHandler._recv_thread differ "
                                 "from one left-to-right scan of the received bytes under that codec's framing",
-                        "codec": P, "hdr_len": rc.hdr_len, "foot_len": rc.foot_len,
+                        "codec": P, "realisation": "built-in SerialFrame" if P == "serial" else fc.realisation(P),
+                        "hdr_len": rc.hdr_len, "foot_len": rc.foot_len,
                         "expected": fstr(want), "observed": got, "stream": hexs(b"".join(chunks))}
             return None
         if op == "recv":
@@ -738,7 +862,8 @@ class C20(Prop):
                         "what": "with ParseRecv(cb, frame=<custom codec>) recv_handle reacts to a write against that codec's "
                                 "acceptance predicate (start byte, known id, hdr+foot <= declared length <= len, footer over "
                                 "exactly the declared length, payload between header and footer)",
-                        "codec": P, "hdr_len": rc.hdr_len, "foot_len": rc.foot_len, "expected": want, "observed": out}
+                        "codec": P, "realisation": "built-in SerialFrame" if P == "serial" else fc.realisation(P),
+                        "hdr_len": rc.hdr_len, "foot_len": rc.foot_len, "expected": want, "observed": out}
             return None
         if op in BUILDER_OPS:
             # the library's builders with this codec must emit this codec's framing of the NxScope payload,
@@ -784,6 +909,18 @@ class C20(Prop):
         return None      # (a) lines exercise the harness' own ICommFrame subclass, not nxslib
 
     def session_oracle(self, line):
+        v = self._session_oracle(line)
+        if v:
+            v.setdefault("realisation", fc.realisation(line.split(" ")[1]))
+        return v
+
+    def stream_oracle(self, line):
+        v = self._stream_oracle(line)
+        if v:
+            v.setdefault("realisation", fc.realisation(line.split(" ")[1]))
+        return v
+
+    def _session_oracle(self, line):
         P, flags, en, div, started, ops, dev = parse_session(line)
         rc = self.rc(P)
         if not rc.fits(max(2 + len(en), 1 + 5 * len(en))):
@@ -820,7 +957,7 @@ class C20(Prop):
                         "expected": b, "observed": a}
         return None
 
-    def stream_oracle(self, line):
+    def _stream_oracle(self, line):
         P, flags, chans, enable, nframes, chunk, dev = parse_stream(line)
         rc = self.rc(P)
         if not rc.fits(max(2 + len(chans), stream_frame_len(chans))):
